@@ -117,6 +117,11 @@ def random_cases(family, rng, count):
         elif family == "interp":
             q = sorted(rng.choice([rng.choice(xs), xs[0] + span * Fraction(rng.randint(-4, 20), 16)]) for _ in range(rng.randint(1, 12)))
             out.append({"fn": "interp", "x": X, "y": Y, "q": [R(v) for v in q], "left": rng.choice([NONE, R(Fraction(rng.randint(-9, 9), 2))])})
+            # the same request after a short history of domain operations (the grid must span the CURRENT range)
+            sh, sc = Fraction(rng.randint(-20, 20), 2), rng.choice([Fraction(1, 2), 2, 3])
+            hx = [(v + sh) * sc for v in xs]
+            out.append({"fn": "winterp", "mode": "n", "x0": X, "y0": Y, "x": [R(v) for v in hx], "y": Y,
+                        "pre": [{"k": "shift_x", "v": R(sh)}, {"k": "scale_x", "v": R(sc)}], "n": rng.choice([2, 3, 5, 9, n]), "method": "linear"})
             out.append({"fn": "winterp", "mode": "n", "x": X, "y": Y, "n": rng.choice([2, 3, 5, 9, 17, 33, n, 2 * n + 1]),
                         "method": rng.choice(["linear", "linear", "constant", "cubic", "spline"]) if n >= 4 else "linear"})
         elif family == "pointwise":
@@ -135,7 +140,7 @@ def random_cases(family, rng, count):
 
 
 CASE_KEYS = ("fn", "x", "y", "r", "a", "b", "left", "right", "lr", "rr", "start", "stop", "step", "explicit_none", "q", "n", "mode",
-             "qcontainer", "explicit_method", "c", "normalized", "axis", "other", "lo", "hi", "op", "v", "container", "method", "m", "b")
+             "qcontainer", "explicit_method", "x0", "y0", "pre", "c", "normalized", "axis", "other", "lo", "hi", "op", "v", "container", "method", "m", "b")
 
 
 def case_of_event(ev):
